@@ -112,23 +112,38 @@ theorem dch_count_le (nums : List Int) (rowChars : Int) : (dchCount nums rowChar
 theorem dl_count_le (nums : List Int) (rowsBelow : Int) : (dlCount nums rowsBelow : Int) ≤ max rowsBelow 0 := by
   unfold dlCount; omega
 
-/-- appending a repeat group never grows a macro beyond the macro space (unless it already was longer) -/
+theorem strLen_append (a b : List Char) : strLen (a ++ b) = strLen a + strLen b := by
+  simp [strLen]
+theorem strLen_replicate (k : Nat) (r : List Char) : strLen (List.replicate k r).flatten = k * strLen r := by
+  induction k with
+  | zero => simp [strLen]
+  | succ k ih => rw [List.replicate_succ, List.flatten_cons, strLen_append, ih, Nat.succ_mul]; omega
+theorem length_le_strLen (l : List Char) : l.length ≤ strLen l := by
+  induction l with
+  | nil => simp [strLen]
+  | cons c t ih =>
+    have : 0 < c.utf8Size := Char.utf8Size_pos c
+    simp only [strLen, List.map_cons, List.sum_cons, List.length_cons] at ih ⊢
+    omega
+
+/-- appending a repeat group never grows a macro beyond the macro space (unless it already was longer);
+    sizes are `String::len`, i.e. UTF-8 bytes, as in `push_repeated` -/
 theorem pushRepeated_len (dst r : List Char) (n : Int) :
-    (pushRepeated dst r n).length ≤ max dst.length MAX_MACRO_LEN := by
+    strLen (pushRepeated dst r n) ≤ max (strLen dst) MAX_MACRO_LEN := by
   unfold pushRepeated
   split
   · omega
-  · rename_i hne
-    have hpos : 0 < r.length := by
-      cases r with
-      | nil => simp at hne
-      | cons a t => simp
-    simp only [List.length_append, List.length_flatten, List.map_replicate, List.sum_replicate_nat]
-    have h1 : min n.toNat ((MAX_MACRO_LEN - dst.length) / r.length) * r.length ≤ MAX_MACRO_LEN - dst.length := by
-      calc min n.toNat ((MAX_MACRO_LEN - dst.length) / r.length) * r.length
-          ≤ ((MAX_MACRO_LEN - dst.length) / r.length) * r.length := Nat.mul_le_mul_right _ (Nat.min_le_right _ _)
-        _ ≤ MAX_MACRO_LEN - dst.length := Nat.div_mul_le_self _ _
+  · simp only [strLen_append, strLen_replicate]
+    have h1 : min n.toNat ((MAX_MACRO_LEN - strLen dst) / strLen r) * strLen r ≤ MAX_MACRO_LEN - strLen dst := by
+      calc min n.toNat ((MAX_MACRO_LEN - strLen dst) / strLen r) * strLen r
+          ≤ ((MAX_MACRO_LEN - strLen dst) / strLen r) * strLen r := Nat.mul_le_mul_right _ (Nat.min_le_right _ _)
+        _ ≤ MAX_MACRO_LEN - strLen dst := Nat.div_mul_le_self _ _
     omega
+
+/-- … and so is the number of characters a later invocation replays -/
+theorem pushRepeated_chars (dst r : List Char) (n : Int) :
+    (pushRepeated dst r n).length ≤ max (strLen dst) MAX_MACRO_LEN :=
+  Nat.le_trans (length_le_strLen _) (pushRepeated_len dst r n)
 
 /-- `replay` never replays more characters than the remaining expansion budget: with no budget it does nothing -/
 theorem replay_budget (stepf : St → Char → R) (body : List Char) (st : St) (h : st.p.budget = 0) :
